@@ -891,7 +891,8 @@ func SplitQueryDecor(p string) (path, pre, suf string) {
 	return
 }
 
-// QueryRawGet sends a DoH GET whose dns parameter is the given RAW text (no encoding applied by the harness).
+// QueryRawGet sends a DoH GET whose query string (everything behind '?') is the given RAW text (no encoding applied by
+// the harness).
 func (e *RouterEnv) QueryRawGet(l string, raw []byte, client string, timeout time.Duration) (resps [][]byte, status string) {
 	base := strings.TrimSuffix(l, "-get")
 	port := e.Ports[base]
@@ -906,7 +907,7 @@ func (e *RouterEnv) QueryRawGet(l string, raw []byte, client string, timeout tim
 	if err != nil {
 		return nil, "bad-request"
 	}
-	req.URL.RawQuery = "dns=" + string(raw)
+	req.URL.RawQuery = string(raw)
 	req.Header.Set("Accept", "application/dns-message")
 	if client != "" && client != "-" {
 		req.Header.Set("X-Verif-Client", client)
